@@ -9,12 +9,16 @@
     mode  "construct" | "deser" | "nested"
     msg   str(exception) of the real run (absent when nothing was raised)
     doc   (deser cases) the document values as handed to Deserializer, for the phase-one model
+    order   field names in class-definition order (the order construct_fields_map visits them)
+    scratch [[field, [inner Field `_name`s …]] …] observed just before the call
     alnum the non-ASCII characters of msg for which Python's str.isalnum() holds (oracle answers)
   Output:
     invalid  supplied fields that `validate` rejects (signature order) — the property's right-hand side
     raised   what the construction model raises: kind, exception class, per site: top, path, shape,
              head (the text the message must begin with); for the real message(s): whether each
              begins with its head and has the model's shape
+    p1sites  (deser) the phase-one rejection sites (field, kind named/inner/foreign, head the text
+             must begin with, exception class), aligned with the real message(s): headOk
     phase1   (deser) supplied fields the model of `deserialize_single_field` rejects;
              deserCollected = what collect-all deserialization reports (phase one's if any, else the
              constructor's)
@@ -86,6 +90,30 @@ def siteToJson (cls : Text) (s : Site) : Json :=
               ("cls", .str (errName s.cls)),
               ("head", .str (ofText (siteHead cls s)))]
 
+def p1KindName : P1Kind → String
+  | .named => "named" | .inner => "inner" | .foreign => "foreign"
+
+/-- phase-one site vs the aligned real text (class prefix stripped when `pre` is given) -/
+def p1SiteToJson (pre : Option Text) (s : P1Site) (t : Option Text) : Json :=
+  let headOk := match s.head, t with
+    | some h, some t => isPrefix (withClass pre h) t
+    | _, _ => true
+  Json.mkObj [("top", .str s.top), ("kind", .str (p1KindName s.kind)),
+              ("head", match s.head with | some h => .str (ofText (withClass pre h)) | none => .null),
+              ("cls", .str (errName s.cls)), ("headOk", .bool headOk)]
+
+def scratchOfJson (j : Json) : Except String (List (String × List (Option String))) :=
+  match optField j "scratch" with
+  | none => pure []
+  | some x => do
+    (← x.getArr?).toList.mapM fun kv => do
+      let p ← kv.getArr?
+      let names ← (← p[1]!.getArr?).toList.mapM fun n =>
+        match n with
+        | .null => pure none
+        | n => do pure (some (← n.getStr?))
+      pure ((← p[0]!.getStr?), names)
+
 def run (j : Json) : Except String Json := do
   let O ← oraclesOfJson j
   let decl ← declOfJson (← j.getObjVal? "cls")
@@ -95,6 +123,8 @@ def run (j : Json) : Except String Json := do
   let msg ← optStr j "msg"
   let doc ← match optField j "doc" with | none => pure [] | some x => kwOfJson x
   let alnum := ((← optStr j "alnum").getD "").toList
+  let order ← strList j "order"
+  let scratch ← scratchOfJson j
   match decl with
   | .struct c fields _ =>
     let cls := c.name.toList
@@ -113,7 +143,17 @@ def run (j : Json) : Except String Json := do
         | _ => [m.toList]
     let expected := if ff then ss.take 1 else ss
     let cmp := (expected.zip texts).map fun st => siteVsText cls st.1 st.2
-    let base := [("invalid", Json.arr (invalid.map Json.str).toArray),
+    -- phase-one sites of deserialization, in class-definition order, aligned with the real texts
+    let defFields := order.filterMap fun n => (lookup n fields).map fun f => (n, f)
+    let p1 := p1Sites O scratch doc (if order.isEmpty then fields else defFields)
+    let p1Expected := if ff then p1.take 1 else p1
+    let p1Pre : Option Text := if ff then none else some cls
+    let p1Json := (List.range p1Expected.length).map fun i =>
+      match p1Expected[i]? with
+      | some st => p1SiteToJson p1Pre st texts[i]?
+      | none => Json.null
+    let base := [("p1sites", Json.arr p1Json.toArray),
+                 ("invalid", Json.arr (invalid.map Json.str).toArray),
                  ("flat", Json.bool flat),
                  ("kind", Json.str kind),
                  ("sites", Json.arr (expected.map (siteToJson cls)).toArray),
